@@ -106,6 +106,8 @@ let () =
               | "permcols", p ->
                 let p = List.map (fun s -> nat_of_int (int_of_string s)) p in
                 (match perm_cols p u with Some u' -> Some (u', false, zero) | None -> None)
+              | "addslack", [ i ] ->
+                (match add_slack !sentinel (nat_of_int (int_of_string i)) u with Some u' -> Some (u', false, zero) | None -> None)
               | "boundrow", [ up; j ] ->
                 (match bound_to_row !sentinel (up = "U") (nat_of_int (int_of_string j)) u with Some u' -> Some (u', false, zero) | None -> None)
               | "subst", at ->
